@@ -1454,6 +1454,10 @@ func (x *Exec) handleLoopHead(st *State, fr *Frame, lp *Loop, b, pred *ssa.Basic
 		}
 	}
 	userClauses := len(clauses)
+	if cps := x.w.commonPostFor(st.frames[0].fn); len(cps) > 0 && !x.pureMode && x.specEval == 0 {
+		// type-wide postconditions relate the current state to the entry state: valid at every loop head
+		clauses = append(clauses, cps...)
+	}
 	if invs, _ := x.w.recvInvFor(fr.fn); len(invs) > 0 {
 		// receiver invariants hold at every loop head of a method
 		clauses = append(clauses, invs...)
